@@ -50,70 +50,82 @@ Proof.
 Qed.
 Print Assumptions C33_persisted_not_ahead.
 
-(* (c) Reset.  What ResetPipeline itself does is right: the table is cleared and, if the pipeline
-   was running, the new handler starts before the first log with nothing delivered yet. *)
+(* (c) Reset.  When ResetPipeline's wait for the stopped handler's persister ends (StopDone; for a
+   stopped pipeline: ResetReq itself), the table is cleared and, if the pipeline was running, the
+   new handler starts before the first log with nothing delivered yet. *)
 Theorem C33_reset_restarts_from_first : forall s,
-  (mgr s = MResetting -> hnd s = HIdle \/ (exists hi, hnd s = HPush hi) ->
-   let s' := fst (step s Halt) in
+  (mgr s = MResetting -> hnd s = HDrain -> pers s = None ->
+   let s' := fst (step s StopDone) in
    stored s' = 0 /\ cur s' = 0 /\ resume s' = 0 /\ delivered s' = [] /\ dsr s' = [] /\
    acked_r s' = 0 /\ started s' = true) /\
   (mgr s = MIdle -> hnd s = HNone ->
    let s' := fst (step s ResetReq) in stored s' = 0 /\ dsr s' = [] /\ acked_r s' = 0).
 Proof.
-  intros [ps lg st h c pe la m g sl r ep ak ar ds]. cbn. split.
-  - intros Hm [Hh | [hi Hh]]; subst; cbn; repeat split; reflexivity.
+  intros [w ps lg st h c pe la lc m g sl r ep ak ar ds]. cbn. split.
+  - intros Hm Hh Hp; subst; cbn; repeat split; reflexivity.
   - intros Hm Hh; subst; cbn. repeat split; reflexivity.
 Qed.
 Print Assumptions C33_reset_restarts_from_first.
 
-(* FULL STATEMENT (c'), refuted by the faithful model (suspect S-33, confirmed on the real code by
-   the `repl` harness, known finding KF-C33-late-store-after-reset):
-
-     forall ps evs i, let s := run ps evs in
-       hnd s <> HNone -> 1 <= i <= cur s -> In i (dsr s)
-     ("whatever lies at or below the running handler's cursor — and will therefore never be sent
-       again — has been exported since the last reset"),
-   and likewise  stored s <= acked_r s  (persisted id vs. acknowledgements since the last reset).
-
-   The persister goroutine of a stopped handler is not waited for: neither Shutdown, nor
-   pipelinesWaitGroup, nor m.mu cover the StorePipelineState call it may still have in flight.
-   When that call lands after ResetPipeline's UpdatePipeline(last_log_id = NULL), the reset is
-   undone in the table; the next StartPipeline / synchronizePipelines / process restart resumes
-   from the old position and the logs before it are never exported again. *)
-Definition s33_witness : list event :=
-  [Produce 3; Start; Fetch; PushOk; Handoff; StopReq; Halt; ResetReq; LatePersist 0; Start].
-
-Theorem C33_reset_reexports_refuted : exists ps evs,
-  let s := run ps evs in
-  all_enabled (init ps) evs = true /\
-  hnd s <> HNone /\ cur s = 3 /\ dsr s = [] /\ acked_r s < stored s.
+(* (c') A reset is never undone (holds since fixes/repl-01: stopPipeline waits for the persister
+   goroutine of the handler it stopped).  No StorePipelineState outlives the manager operation that
+   stopped its handler ... *)
+Theorem C33_no_late_store : forall ps evs,
+  late (run ps evs) = [] /\ stale (run ps evs) = false /\
+  existsb stale_store (outs_from (init ps) evs) = false.
 Proof.
-  exists 10, s33_witness. vm_compute. repeat split; try reflexivity. discriminate.
+  intros ps evs. destruct (InvW_run ps evs) as [Hl Hs]. repeat split; auto.
+  unfold run in Hs. rewrite stale_run_from in Hs. cbn in Hs. exact Hs.
 Qed.
-Print Assumptions C33_reset_reexports_refuted.
+Print Assumptions C33_no_late_store.
 
-(* Strongest true form: as long as no store issued before a reset has landed after it (no
-   [OStore _ true] output, i.e. the `[late-store-after-reset]` condition of the Go monitor has not
-   occurred), the persisted id and the cursor never run ahead of what was acknowledged SINCE THE
-   LAST RESET, and every log at or below them has been exported again since that reset. *)
-Theorem C33_reset_reexports_partial : forall ps evs,
-  existsb stale_store (outs_from (init ps) evs) = false ->
+(* ... hence, for every event list: the persisted id, the value the persister holds and the running
+   handler's cursor never run ahead of what was acknowledged SINCE THE LAST RESET, and every log
+   at or below them has been exported again since that reset ("after a reset all logs are exported
+   again from the first one": nothing is skipped). *)
+Theorem C33_reset_reexports : forall ps evs,
   let s := run ps evs in
   stored s <= acked_r s /\
+  (forall v, pers s = Some v -> v <= acked_r s) /\
   (hnd s <> HNone -> cur s <= acked_r s) /\
   (forall i, 1 <= i <= acked_r s -> In i (dsr s)) /\
   (forall i, 1 <= i <= stored s -> In i (dsr s)) /\
   (forall i, hnd s <> HNone -> 1 <= i <= cur s -> In i (dsr s)).
 Proof.
-  intros ps evs Hno s.
-  assert (Hst : stale s = false).
-  { unfold s, run. rewrite stale_run_from, Hno. reflexivity. }
+  intros ps evs s.
+  destruct (InvW_run ps evs) as [_ Hst]. fold s in Hst.
   destruct (c_ns _ (InvC_run ps evs) Hst) as (H1 & H2 & H3 & H4 & H5). fold s in H1, H2, H3, H4, H5.
   repeat split; auto.
   - intros i Hi. apply H5. lia.
   - intros i Hh Hi. specialize (H4 Hh). apply H5. lia.
 Qed.
-Print Assumptions C33_reset_reexports_partial.
+Print Assumptions C33_reset_reexports.
+
+(* In particular the cleared position stays cleared until the exporter acknowledges again. *)
+Theorem C33_reset_not_undone : forall ps evs,
+  let s := run ps evs in acked_r s = 0 -> stored s = 0.
+Proof.
+  intros ps evs s H0. destruct (C33_reset_reexports ps evs) as (H1 & _).
+  pose proof (a_st _ (InvA_run ps evs)) as H2. fold s in H1, H2. lia.
+Qed.
+Print Assumptions C33_reset_not_undone.
+
+(* The code BEFORE the repair (init_unrepaired: Halt completes the operation, the persister's value
+   becomes a late store) violated all of this — suspect S-33, confirmed on the real code by the
+   `repl` harness (KF-C33-late-store-after-reset, replay
+   known_findings.d/C33-late-store-after-reset.replay.sx): the late store lands after the reset
+   cleared the table, the next start resumes from 3 and logs 1..3 are never exported again.  The
+   same schedule is not a schedule of the repaired automaton. *)
+Definition s33_witness : list event :=
+  [Produce 3; Start; Fetch; PushOk; Handoff; StopReq; Halt; ResetReq; LatePersist 0; Start].
+
+Theorem C33_unrepaired_reset_undone :
+  let s := run_from (init_unrepaired 10) s33_witness in
+  all_enabled (init_unrepaired 10) s33_witness = true /\
+  hnd s <> HNone /\ cur s = 3 /\ dsr s = [] /\ acked_r s < stored s /\
+  all_enabled (init 10) s33_witness = false.
+Proof. vm_compute. repeat split; try reflexivity. discriminate. Qed.
+Print Assumptions C33_unrepaired_reset_undone.
 
 (* (d) Progress.  From ANY reachable state in which the pipeline is started and some log is not yet
    delivered to the current handler's exporter, the explicit schedule [progress_sched] — at most 4
@@ -158,16 +170,16 @@ Proof.
 Qed.
 Print Assumptions C33_all_delivered.
 
-(* non-vacuity: page size 2, five logs, an exporter failure, a stop/start with a store still in
-   flight (resume from the stale position 2, logs 3..4 delivered twice), a reset while running
-   (everything delivered again from 1), a crash and restart from the persisted position. *)
+(* non-vacuity: page size 2, five logs, an exporter failure, a stop that waits for the store in
+   flight (Halt; Persist; StopDone) and a start from the position just stored, a reset while
+   running (everything delivered again from 1), a crash and restart from the persisted position. *)
 Example C33_example :
   let evs := [Produce 5; Start; Fetch; PushFail; PushOk; Handoff; Persist; Fetch; PushOk; Handoff;
-              StopReq; Halt; Start; LatePersist 0; Fetch; PushOk; Handoff; Persist;
-              ResetReq; Halt; Fetch; PushOk; Handoff; Persist; Crash; Produce 1; Start] in
+              StopReq; Halt; Persist; StopDone; Start; Fetch; PushOk; Handoff; Persist;
+              ResetReq; Halt; StopDone; Fetch; PushOk; Handoff; Persist; Crash; Produce 1; Start] in
   let s := run 2 evs in
   all_enabled (init 2) evs = true /\
-  epochs s = [(2, []); (0, [[1; 2]]); (2, [[3; 4]]); (0, [[3; 4]; [1; 2]]); (0, [])] /\
-  stored s = 2 /\ acked s = 4 /\ acked_r s = 2 /\ stale s = false /\ started s = true /\
+  epochs s = [(2, []); (0, [[1; 2]]); (4, [[5]]); (0, [[3; 4]; [1; 2]]); (0, [])] /\
+  stored s = 2 /\ acked s = 5 /\ acked_r s = 2 /\ stale s = false /\ started s = true /\
   delivered (run_from s (drain_sched 4 s)) = [3; 4; 5; 6].
 Proof. vm_compute. repeat split; reflexivity. Qed.
